@@ -369,12 +369,24 @@ class Engine:
                 self.discharged += 1
                 self._sample(msg, 'concrete-true')
                 return True
+            if self.concrete is None:
+                from . import fpworld as _fw
+                if _fw.active():
+                    asserts = list(self.s.assertions())
+                    if any(_fw.mentions_def(a) for a in asserts):
+                        # the path itself may be infeasible in the float world (the integer solver does not know)
+                        c = z3.BoolVal(False)
+                        mk_, e = self._memo_get(c.get_id())
+                        if e is not None:
+                            self.obligations -= 1
+                            return e[1]
+                        return self._check_fp(c, msg, info, asserts, mk_)
             self._candidate(msg, None if self.concrete is not None else self._ensure_model(), info)
             return False
         c = z3.simplify(tobool(cond))
         if z3.is_false(c):
-            self._candidate(msg, self._ensure_model(), info)
-            return False
+            self.obligations -= 1
+            return self.check(False, msg, info)
         if z3.is_true(c):
             self.discharged += 1
             self._sample(msg, 'trivial')
